@@ -89,7 +89,7 @@ func init() {
 				W:       weights(Weights{"commit": 16, "status": 14, "add": 18, "rm": 6, "restore": 6, "junk": 0}),
 				Oracles: []HistOracle{orC07}, StatusAfterCommit: true}
 		})
-	checks["C08"] = histCheck("C08", []string{"C08.accepts", "C08.accepts_number", "C08.accepted_shape", "C08.position_agrees", "C08.out_of_range_refused", "C08.mode_table"}, histRule+"; before every reset the `reflog` listing is sampled",
+	checks["C08"] = histCheck("C08", []string{"C05.reset_readback", "C08.accepts", "C08.accepts_number", "C08.accepted_shape", "C08.position_agrees", "C08.out_of_range_refused", "C08.mode_table"}, histRule+"; before every reset the `reflog` listing is sampled",
 		func(ctx *Ctx) *HistCfg {
 			return &HistCfg{Prop: "C08", Cases: tierN(ctx, 200, 2000), MinSteps: 10, MaxSteps: 35,
 				W:       weights(Weights{"commit": 16, "reset": 14, "switch": 3, "switch-c": 2, "rmdir": 4, "rmfile": 5, "junk": 0}),
@@ -159,7 +159,7 @@ func init() {
 					"write": 12, "add-all": 8, "restore": 0, "rm": 0, "junk": 0}),
 				Oracles: []HistOracle{orC08}, PreReset: true, ReflogAfter: true, Messages: genMessage}
 		})
-	checks["C05"] = histCheck("C05", []string{"C05.readback_writeTree", "C05.walk_write", "C05.walk_encode", "C05.walk_empty", "C05.render_children", "C05.loop_encode", "C02.flatten_writeTree"}, histRule+"; after every commit `cat-file -p` is run on every tree of the snapshot, and `reset --mixed` + `ls-files -s` read snapshots back",
+	checks["C05"] = histCheck("C05", []string{"C05.reset_readback", "C05.readback_writeTree", "C05.walk_write", "C05.walk_encode", "C05.walk_empty", "C05.render_children", "C05.loop_encode", "C02.flatten_writeTree"}, histRule+"; after every commit `cat-file -p` is run on every tree of the snapshot, and `reset --mixed` + `ls-files -s` read snapshots back",
 		func(ctx *Ctx) *HistCfg {
 			return &HistCfg{Prop: "C05", Cases: tierN(ctx, 200, 2000), MinSteps: 8, MaxSteps: 30,
 				W:       weights(Weights{"commit": 18, "add-all": 8, "add": 14, "rm": 6, "reset": 8, "ls-files": 6, "cat-file": 6, "write": 18, "junk": 0}),
